@@ -61,7 +61,10 @@ def pure_lin_cases(crate, path, allow_calls=False):
         top = ev.eval_entry(b)
     except RecursionError:
         return None
+    reduced = {e['node'].get('_nid') for e in ev.events if e['kind'] == 'loop' and e.get('reduced')}
     for e in ev.events:
+        if e['depth'] == 0 and e['loops'] and all(l in reduced for l in e['loops']) and e['kind'] in ('assign', 'break'):
+            continue    # the accumulator of a loop that was reduced to a sum / max / min / search: part of the value
         if e['depth'] == 0 and e['kind'] in (('assign', 'break') if allow_calls else ('assign', 'mutcall', 'break')) \
                 or (e['kind'] == 'loop' and e['depth'] == 0 and not e.get('reduced')):
             return None
@@ -571,7 +574,7 @@ def check_cost_laws(rep, crate):
                             return tuple(unmut(x) for x in t)
                         return t
                     from .summary import term_case_lines
-                    if term_case_lines(unmut(ltop)) == term_case_lines(unmut(want)):
+                    if term_case_lines(unmut(ltop)) == term_case_lines(unmut(want)) or LA.terms_equal(T.canon(unmut(ltop), True), T.canon(unmut(want), True)):
                         rep.ok('COST-LEAST', f'COST-LEAST:{short}', wl, 'least_wcet(n) = min(table[0], min over 1 <= i < min(len, n) of table[i] - table[i-1]): with COST-PREFIX and the '
                                'telescoping items these are exactly the first min(len, n) items (beyond the prefix the items repeat periodically: not decided here)', fn=lpath)
                     else:
